@@ -8,7 +8,10 @@
 
 #include "cntgs/detail/typeTraits.hpp"
 
+#include <array>
 #include <iterator>
+#include <string>
+#include <vector>
 #include <version>
 
 namespace cntgs::detail
@@ -41,13 +44,40 @@ constexpr auto operator_arrow_produces_pointer_to_iterator_reference_type() noex
     }
 }
 
+#ifdef __cpp_lib_concepts
+template <class I>
+inline constexpr bool CONTIGUOUS_ITERATOR_V =
+    std::contiguous_iterator<I> && detail::operator_arrow_produces_pointer_to_iterator_reference_type<I>();
+#else
+// Before C++20 contiguity cannot be detected: a random access iterator with lvalue references and a pointer
+// returning operator-> (e.g. std::deque<T>::iterator) does not necessarily refer to contiguous storage. Only the
+// iterators of the contiguous standard containers are recognized.
+template <class I, class V>
+inline constexpr bool IS_STRING_ITERATOR = false;
+
+template <class I>
+inline constexpr bool IS_STRING_ITERATOR<I, char> =
+    std::is_same_v<I, std::string::iterator> || std::is_same_v<I, std::string::const_iterator>;
+
+template <class I>
+inline constexpr bool IS_STRING_ITERATOR<I, wchar_t> =
+    std::is_same_v<I, std::wstring::iterator> || std::is_same_v<I, std::wstring::const_iterator>;
+
+template <class I, class V = typename std::iterator_traits<I>::value_type>
+inline constexpr bool IS_STANDARD_CONTIGUOUS_ITERATOR =
+    std::is_same_v<I, typename std::vector<V>::iterator> || std::is_same_v<I, typename std::vector<V>::const_iterator> ||
+    std::is_same_v<I, typename std::array<V, 1>::iterator> ||
+    std::is_same_v<I, typename std::array<V, 1>::const_iterator> || detail::IS_STRING_ITERATOR<I, V>;
+
 template <class I>
 inline constexpr bool CONTIGUOUS_ITERATOR_V =
     detail::IS_DERIVED_FROM<typename std::iterator_traits<I>::iterator_category, std::random_access_iterator_tag> &&
     std::is_lvalue_reference_v<typename std::iterator_traits<I>::reference> &&
     std::is_same_v<typename std::iterator_traits<I>::value_type,
                    detail::RemoveCvrefT<typename std::iterator_traits<I>::reference>> &&
-    detail::operator_arrow_produces_pointer_to_iterator_reference_type<I>();
+    detail::operator_arrow_produces_pointer_to_iterator_reference_type<I>() &&
+    detail::IS_STANDARD_CONTIGUOUS_ITERATOR<I>;
+#endif
 }  // namespace cntgs::detail
 
 #endif  // CNTGS_DETAIL_ITERATOR_HPP
